@@ -240,7 +240,12 @@ func c07DrainLock(c *core.Ctx, lib, svc *packages.Package) {
 						}
 						for _, m := range callees(info, y) {
 							if drains[m] {
-								evs = append(evs, ev{"", types.ExprString(y.Fun), y.Pos()})
+								// named by the method called (as declared), not by the expression: locals may be renamed
+								what := types.ExprString(y.Fun)
+								if d := core.Callee(info, y); d != nil {
+									what = core.RecvTypeName(d) + "." + d.Name()
+								}
+								evs = append(evs, ev{"", what, y.Pos()})
 								break
 							}
 						}
